@@ -246,6 +246,7 @@ func main() {
 			"fair drain: the peer reads everything whenever anything is queued; no further call by the application",
 			"writes inside the close callback are not part of the space (the connection is closed by then)",
 		},
-		Build: build, QuickBudget: 40 * time.Second, ThoroughBudget: 10 * time.Minute, MinNonTrivial: 30,
+		UsesSimulatedKernel: true,
+		Build:               build, QuickBudget: 40 * time.Second, ThoroughBudget: 10 * time.Minute, MinNonTrivial: 30,
 	})
 }
